@@ -324,6 +324,12 @@ func (fa *FuncAn) knownNonNilErr(v ssa.Value, e *Edge) bool {
 	if errCtorRe.MatchString(s) {
 		return true
 	}
+	// a module function all of whose returns are non-nil errors
+	if call, ok := v.(*ssa.Call); ok {
+		if f := call.Call.StaticCallee(); f != nil && alwaysErr(fa.W, f, 0) {
+			return true
+		}
+	}
 	// a value of a concrete struct type boxed into error
 	if mi, ok := v.(*ssa.MakeInterface); ok {
 		if _, isPtr := mi.X.Type().Underlying().(*types.Pointer); !isPtr {
@@ -700,3 +706,25 @@ func (fa *FuncAn) exitLabel(x Exit) string {
 
 // M matches s against a pattern after parameter substitution/translation.
 func (fa *FuncAn) M(pat, s string) bool { return fullMatch(substParams(fa.Fn, pat), s) }
+
+var alwaysErrMemo = map[*ssa.Function]int{}
+
+// alwaysErr: fn has a single error result and every return yields a non-nil error.
+func alwaysErr(w *World, fn *ssa.Function, depth int) bool {
+	if v, ok := alwaysErrMemo[fn]; ok {
+		return v == 1
+	}
+	alwaysErrMemo[fn] = 0
+	res := fn.Signature.Results()
+	if depth > 3 || len(fn.Blocks) == 0 || res.Len() != 1 || res.At(0).Type().String() != "error" {
+		return false
+	}
+	fa := NewFuncAn(w, fn)
+	for _, x := range fa.Exits() {
+		if !fa.knownNonNilErr(RetResults(x.Ret)[0], x.In) {
+			return false
+		}
+	}
+	alwaysErrMemo[fn] = 1
+	return true
+}
